@@ -943,14 +943,20 @@ type statsSpec struct {
 	ssrc     string // field holding the recorder's SSRC
 	pkgPath  string // package whose *StreamStats types are the counters
 	registry []string // map field(s) of the interceptor(s) holding one recorder per bound SSRC
+	state    string   // the recorder's per-stream state struct (embeds the exported stats structs)
 }
 
+var statsStateTypes = map[string]bool{}
+
 var statsSpecs = []statsSpec{
-	{"pkg/stats.recorder", "pkg/stats.recorder.ssrc", "pkg/stats", []string{"pkg/stats.Interceptor.recorders"}},
-	{"fixtures/fx.sRec", "fixtures/fx.sRec.ssrc", "fixtures/fx", []string{"fixtures/fx.GoodS5fan.recs", "fixtures/fx.BadS5fan.recs"}},
+	{"pkg/stats.recorder", "pkg/stats.recorder.ssrc", "pkg/stats", []string{"pkg/stats.Interceptor.recorders"}, "pkg/stats.internalStats"},
+	{"fixtures/fx.sRec", "fixtures/fx.sRec.ssrc", "fixtures/fx", []string{"fixtures/fx.GoodS5fan.recs", "fixtures/fx.BadS5fan.recs"}, "fixtures/fx.sStats"},
 }
 
 func runEngineS(p *Prog, o *obls) {
+	for _, ss := range statsSpecs {
+		statsStateTypes[ss.state] = true
+	}
 	for _, ss := range statsSpecs {
 		if p.Fixture != strings.HasPrefix(ss.recorder, "fixtures/") {
 			continue
@@ -1107,8 +1113,8 @@ func runEngineS(p *Prog, o *obls) {
 	}
 }
 
-// throughStatsStruct: the address selects a field inside one of the exported *StreamStats structs.
-func throughStatsStruct(addr ssa.Value, pkgRel string) bool {
+// throughExportedStats: the address selects a field inside one of the exported *StreamStats structs.
+func throughExportedStats(addr ssa.Value, pkgRel string) bool {
 	for i := 0; i < 8; i++ {
 		fa, ok := addr.(*ssa.FieldAddr)
 		if !ok {
@@ -1122,6 +1128,35 @@ func throughStatsStruct(addr ssa.Value, pkgRel string) bool {
 	}
 	return false
 }
+
+// statsExempt: per-stream state that is deliberately recorded without an SSRC test.
+var statsExempt = map[string]string{
+	"pkg/stats.internalStats.lastReceiverReferenceTimes": "receiver-reference-time report blocks carry no destination SSRC and are recorded for every stream (comment in recordOutgoingRTCP)",
+}
+
+// throughStatsStruct: the address selects a field inside one of the exported *StreamStats structs, or a field of the
+// recorder's per-stream state struct that embeds them (the running state the figures are derived from).
+func throughStatsStruct(addr ssa.Value, pkgRel string) bool {
+	for i := 0; i < 8; i++ {
+		fa, ok := addr.(*ssa.FieldAddr)
+		if !ok {
+			return false
+		}
+		tk := typeKey(fa.X.Type())
+		if strings.HasPrefix(tk, pkgRel+".") && strings.HasSuffix(tk, "StreamStats") {
+			return true
+		}
+		if statsStateTypes[tk] {
+			if _, ex := statsExempt[fieldKeyAddr(fa)]; ex {
+				return false
+			}
+			return true
+		}
+		addr = fa.X
+	}
+	return false
+}
+
 
 // viaPhisOnly: v is the loop-carried φ itself, or a φ merging it unchanged on some path (the variable was not
 // re-assigned on that path of the current iteration).
@@ -1186,7 +1221,7 @@ func s4CoUpdate(p *Prog, o *obls, fn *ssa.Function, ss statsSpec) {
 	acc := map[*ssa.Store]int{}
 	instrsOf(fn, func(in ssa.Instruction) {
 		st, ok := in.(*ssa.Store)
-		if !ok || !throughStatsStruct(st.Addr, ss.pkgPath) {
+		if !ok || !throughExportedStats(st.Addr, ss.pkgPath) {
 			return
 		}
 		if b, ok := st.Val.Type().Underlying().(*types.Basic); !ok || b.Info()&types.IsInteger == 0 {
